@@ -136,7 +136,10 @@ class Concat(Expr):
         dfs = self._frames
         if self.axis == 1:
             if self._are_co_alinged_or_single_partition:
-                return ConcatIndexed(self.ignore_order, self._kwargs, self.axis, *dfs)
+                # aligned partitions can still hold different index values
+                # (a filtered frame): the join applies within each partition
+                kwargs = {"join": self.join, **self._kwargs}
+                return ConcatIndexed(self.ignore_order, kwargs, self.axis, *dfs)
 
             elif (
                 all(not df.known_divisions for df in dfs)
@@ -353,4 +356,4 @@ class ConcatUnindexed(Blockwise):
 class ConcatIndexed(ConcatUnindexed):
     @staticmethod
     def operation(*args, ignore_order, _kwargs, axis):
-        return methods.concat(args, ignore_order=ignore_order, axis=axis)
+        return methods.concat(args, ignore_order=ignore_order, axis=axis, **_kwargs)
